@@ -118,6 +118,7 @@ type Contracts struct {
 	RefWalks      []RefWalkDecl     // a traversal must read every field that can hold a reference
 	PropertyScope map[string][]string // property -> properties whose scoped clauses also apply to it
 	PropertyClasses map[string][]string // property -> the obligation classes it consists of (default: all)
+	PropertyLevel   map[string][2]string // property -> evidence level other than proof, with its explanation
 	MapNonNil     map[string]bool   // "pkgpath::global": map whose stored values are non-nil
 }
 
@@ -165,7 +166,7 @@ func newContracts() *Contracts {
 // their package's (e.g. per-call error objects are not part of the shared document).
 var classOverride = map[string]string{}
 
-var declKeywords = map[string]bool{"propertyclasses": true, "propertyscope": true, "refwalk": true, "walkcomplete": true, "onlycalledby": true, "default-frame": true, "extend": true, "allmethods": true, "global": true, "guarded": true, "class": true, "func": true, "iface": true, "fnfield": true, "pred": true, "spec": true, "axiom": true,
+var declKeywords = map[string]bool{"propertylevel": true, "propertyclasses": true, "propertyscope": true, "refwalk": true, "walkcomplete": true, "onlycalledby": true, "default-frame": true, "extend": true, "allmethods": true, "global": true, "guarded": true, "class": true, "func": true, "iface": true, "fnfield": true, "pred": true, "spec": true, "axiom": true,
 	"lemma": true, "ghost": true, "generate": true, "trusted": true}
 var clauseKeywords = map[string]bool{"requires": true, "ensures": true, "modifies": true, "panics_if": true, "loop": true,
 	"tag": true, "pure": true, "records": true, "preserves": true, "defines": true, "assuming": true, "secret": true, "untainted": true, "returns-untainted": true, "fresh": true, "reads": true, "option": true, "nosafety": true}
@@ -495,6 +496,16 @@ func (cs *Contracts) loadContractText(text, path, pkgPath string) error {
 				return fail("expected: walkcomplete @PROP <root> <method>")
 			}
 			cs.WalkComplete = append(cs.WalkComplete, WalkCompleteDecl{Pkg: pkgPath, Root: f[1], Method: f[2], Tags: []string{f[0][1:]}})
+		case "propertylevel":
+			cur = nil
+			f := strings.Fields(rest)
+			if len(f) < 3 {
+				return fail("expected: propertylevel <PROP> <level> <explanation>")
+			}
+			if cs.PropertyLevel == nil {
+				cs.PropertyLevel = map[string][2]string{}
+			}
+			cs.PropertyLevel[f[0]] = [2]string{f[1], strings.TrimSpace(rest[strings.Index(rest, f[1])+len(f[1]):])}
 		case "propertyclasses":
 			cur = nil
 			f := strings.Fields(rest)
